@@ -684,6 +684,10 @@ def rule_cusum(ctx):
             new = as_poly(new)
             if new == old:
               continue
+            # new = max(old, x) never moves down, new = min(old, x) never moves up
+            na_ = new.as_atom()
+            if na_ is not None and na_.kind == ("max" if direction > 0 else "min") and any(as_poly(x_) == old for x_ in na_.args):
+              continue
             ok_ = False
             for fc in s_.facts[len(vis["head"].facts):]:
               cl = canon_le(fc)
@@ -927,8 +931,8 @@ def rule_formula(ctx):
     cmp_terms(ctx, R, f.where, txt, pv, want_f(lambda j: sym.mk("idx", vs[0], j), mm), "2.11.4")
   psi_ok = None
   for e in w.events:
-    if e.kind == "store" and not isinstance(e.data["value"], (Seq, Const, tuple)) and "sum" in repr(as_poly(e.data["value"])):
-      val = as_poly(e.data["value"])
+    if e.kind == "store" and not isinstance(e.data["value"], (Seq, Const, tuple)) and "sum" in repr(sym.resolve_sums(w, as_poly(e.data["value"]))):
+      val = sym.resolve_sums(w, as_poly(e.data["value"]))         # an accumulator loop reads as the sum it computes
       mm = as_poly(e.data["index"])
       srcs = [a for a in val.all_atoms() if a.kind == "sum"]
       src = as_poly(srcs[0].args[0]).as_atom() if srcs else None
@@ -1076,7 +1080,9 @@ def rule_formula(ctx):
       txt = repr(cnt[0].args[1]) if len(cnt[0].args) > 1 else ""
       dft = sym.mk("slice", _call(U + "Dft", _call(U + "Bits", bits, n)), _lit("None"), sym.mk("fdiv", n, _c(2)), _lit("None"))
       T = sqrt(sym.mk("math.log", _td(_c(1), _fl("0.05"))) * n)
-      if not (("'Lt'" in txt or "'LtE'" in txt) and repr(dft) in txt and repr(T) in txt and txt.index(repr(dft)) < txt.index(repr(T))):
+      below = repr(dft) in txt and repr(T) in txt and ((("'Lt'" in txt or "'LtE'" in txt) and txt.index(repr(dft)) < txt.index(repr(T))) or
+                                                          (("'Gt'" in txt or "'GtE'" in txt) and txt.index(repr(T)) < txt.index(repr(dft))))
+      if not below:
         probs.append("the peaks counted are not the first n/2 moduli below T = sqrt(ln(1/0.05) n)")
       N0 = sym.mk("len", dft) * _fl("0.95")
       want = erfc(_td(sym.mk("abs", _td(N0 - N1, sqrt(_td(n * _fl("0.95") * _fl("0.05"), _c(4))))), sqrt(_c(2))))
@@ -2103,7 +2109,11 @@ def rule_overlap(ctx):
     bv = Poly.atom(a_.args[1])
     src = as_poly(a_.args[2]).as_atom()
     el = as_poly(a_.args[0]).as_atom()
-    if src is None or src.kind != "range" or [repr(as_poly(x)) for x in src.args] != [repr(pk + 1)]:
+    cnt_ = None
+    if src is not None and src.kind == "range":
+      ra_ = [as_poly(x) for x in src.args]
+      cnt_ = ra_[0] if len(ra_) == 1 else (ra_[1] - ra_[0] if len(ra_) == 2 or (len(ra_) == 3 and ra_[2].as_int() == 1) else None)
+    if cnt_ is None or not (cnt_ - pk - 1).is_zero():
       probs.append("the distribution does not have one entry per occurrence count 0 .. k")
       continue
     if el is None or el.kind != "sum":
